@@ -309,6 +309,15 @@ def injOn (f : Nat → Nat) : List Nat → Bool
   | [] => true
   | a :: as => as.all (fun b => f b != f a) && injOn f as
 
+/-- operators announced by the same first terminal (`IS` and the two-token `IS NOT`) have the same lookahead
+level — `resolve` decides for them in common — and differ in their second terminal; so the pair
+`(opTerm, opRest)` is injective on the (duplicate-free) list -/
+def termCompat (P : Table) (C : Cert) : List Nat → Bool
+  | [] => true
+  | a :: as =>
+    as.all (fun b => C.opTerm b != C.opTerm a ||
+      (P.tokLevel b == P.tokLevel a && C.opRest b != C.opRest a)) && termCompat P C as
+
 /-- facts about the productions and terminals named by the certificate -/
 def globalOK (T : Tables) (P : Table) (F : Fragment) (C : Cert) : Bool :=
   let E := 2 * C.exprNt + 1
@@ -322,7 +331,7 @@ def globalOK (T : Tables) (P : Table) (F : Fragment) (C : Cert) : Bool :=
   F.bins.contains P.andTok &&
   C.opTerm P.btwTok == P.btwTok && (C.opRest P.btwTok).isNone &&
   C.opTerm P.andTok == P.andTok && (C.opRest P.andTok).isNone &&
-  injOn C.opTerm (F.bins ++ [P.btwTok]) &&
+  termCompat P C (F.bins ++ [P.btwTok]) &&
   prodIs T C.parNo C.exprNt [2 * C.lpar, E, 2 * C.rpar] &&
   C.chain.all (fun pl => unitProd T pl.1 pl.2) && !C.chain.isEmpty &&
   (C.chain.getLast?.map (·.2)) == some C.exprNt &&
